@@ -109,7 +109,8 @@ def run(ctx):
         chunk = []
         for _ in range(rng.randint(1, 30)):
             tag += 1
-            chunk.append(logsgen.gen_record(rng, tag, profile=prof, tame=True))
+            r = logsgen.variant(rng, rng.choice(chunk), tag) if chunk and rng.random() < 0.25 else None      # same subject, another access: merges happen
+            chunk.append(r or logsgen.gen_record(rng, tag, profile=prof, tame=True))
         cnt += len(chunk)
         batches.append(chunk)
     reqs = [{"id": i, "do": "new", "rules": True,
